@@ -596,6 +596,10 @@ def build_text():
                     return _Quat(quats)
 
             del proxy.hist_calls[:]
+            for k in ("Rotation", "_geo", "_utils"):
+                if k not in st.__dict__:
+                    raise TranslatorUnsupported(f"pydrex.stats has no module-level name `{k}` any more: the stand-ins of the "
+                                                "as_quat oracle / the callee kernels cannot be installed")
             saved = {k: st.__dict__[k] for k in ("Rotation", "_geo", "_utils")}
             st.__dict__.update(Rotation=RotOracle(), _geo=stats_geo, _utils=stats_utils)
             try:
